@@ -7,7 +7,14 @@ E2 program:  explicit-state search through Script.evaluate: every state (stack d
              with the reference; plus transition tours (programs of 40 operations chaining explored transitions).
 E1 ifnest:   every properly nested IF/NOTIF/ELSE/ENDIF program up to a token bound over a small atom alphabet.
 E1 numcodec: encode_num / decode_num on integer ranges and on every byte string of length 0..2 (thorough 0..3).
-E1 timelock: CLTV / CSV over the full product of locktime x sequence x version x operand boundary sets.
+E1 timelock: CLTV / CSV over the full product of locktime x sequence x version x operand boundary sets (operands also
+             zero-padded to 5 and 6 bytes: 5 must behave like the minimal form, 6 must fail).
+E1 flow:     every token sequence up to a length bound over 15 tokens (constants, IF/NOTIF/ELSE/ENDIF, VERIFY, RETURN,
+             alt-stack, DEPTH, DUP, DROP, NOT) that is properly nested, through Script(list) and Script.parse(raw).
+E1 elements: (longbool) truth value of long zero / negative-zero / non-zero elements in IF, NOTIF, VERIFY, IFDUP and as
+             final top; (wire) Script.parse(raw).evaluate for programs whose pushes use every push encoding (direct,
+             PUSHDATA1/2/4); (limits) pushes around the 520-byte limit, executed and in unexecuted branches, and scripts
+             around 10000 bytes.
 """
 import itertools
 
@@ -23,15 +30,23 @@ TIME_OPS = {177, 178}
 A14 = [b"", b"\x00", b"\x80", b"\x01", b"\x81", b"\x02", b"\x7f", b"\xff\x00", b"\x00\x01", b"\xff\xff\xff\x7f", b"\xff\xff\xff\xff", b"\x01\x02\x03\x04\x05", b"\xaa" * 20, b"\x02" + b"\xbb" * 32]
 A4 = [b"", b"\x01", b"\x81", b"\x03"]
 V6 = [b"", b"\x01", b"\x02", b"\x81", b"\x80", b"\x00"]
+# second value set of the program search: multi-byte numbers and a 20-byte blob
+V6B = [b"", b"\x01", b"\xff\x00", b"\x00\x01", b"\xff\xff\xff\x7f", b"\xaa" * 20]
+VSETS = [V6, V6B]
+# long elements: zero, negative zero and non-zero values of 5 and 20 bytes (truth value for any length; as PICK/ROLL
+# index they are longer than a script number may be), next to three short values
+AL = [b"", b"\x01", b"\x07", b"\x00" * 5, b"\x00" * 4 + b"\x80", b"\x01" + b"\x00" * 4, b"\x00" * 20, b"\x00" * 19 + b"\x80"]
+# second transaction context of the program search (CLTV / CSV can succeed here)
+CTX2 = {"version": 2, "locktime": 500, "sequence": 0xFFFFFFFE}
 
 
-def lib_tx(version=1, locktime=0, sequence=0xFFFFFFFF, others=()):
-    """others: sequences of further inputs placed BEFORE the evaluated one (which is then input len(others))."""
+def lib_tx(version=1, locktime=0, sequence=0xFFFFFFFF, others=(), after=()):
+    """others / after: sequences of further inputs placed BEFORE / AFTER the evaluated one (which is input len(others))."""
     from buidl.script import Script
     from buidl.tx import Tx, TxIn, TxOut
 
     tins = []
-    for j, sq in enumerate(list(others) + [sequence]):
+    for j, sq in enumerate(list(others) + [sequence] + list(after)):
         tin = TxIn(bytes([j]) * 32, j, Script(), sq)
         tin._value = 0
         tin._script_pubkey = Script()
@@ -39,8 +54,8 @@ def lib_tx(version=1, locktime=0, sequence=0xFFFFFFFF, others=()):
     return Tx(version, tins, [TxOut(0, Script())], locktime)
 
 
-def ref_tx(version=1, locktime=0, sequence=0xFFFFFFFF, others=()):
-    return {"version": version, "locktime": locktime, "segwit": False, "ins": [{"prev": bytes([j]) * 32, "index": j, "script": b"", "seq": sq} for j, sq in enumerate(list(others) + [sequence])], "outs": []}
+def ref_tx(version=1, locktime=0, sequence=0xFFFFFFFF, others=(), after=()):
+    return {"version": version, "locktime": locktime, "segwit": False, "ins": [{"prev": bytes([j]) * 32, "index": j, "script": b"", "seq": sq} for j, sq in enumerate(list(others) + [sequence] + list(after))], "outs": []}
 
 
 def implemented_ops():
@@ -78,6 +93,13 @@ def stacks_for(tier):
     for d in range(4, 10):
         out.append([bytes([0x11 * (i + 1)]) for i in range(d)])
         out.append([bytes([0x11 * (d - i)]) for i in range(d)])
+    # every stack of depth 1..3 over the long-element alphabet (those not already listed above)
+    seen = set(tuple(x) for x in out)
+    for d in range(1, 4):
+        for t in itertools.product(AL, repeat=d):
+            if t not in seen:
+                seen.add(t)
+                out.append(list(t))
     return out
 
 
@@ -92,7 +114,7 @@ def run_opconf(case):
             try:
                 ref = interp.run_program(bytes([op]), st, alt)
             except interp.OutOfStatement:
-                res.skip("numeric operand longer than 4 bytes")
+                res.skip("operand of an arithmetic / comparison opcode longer than 4 bytes")
                 continue
             ls, la = list(st), list(alt)
             r = attempt(lib_call_op, op, ls, la, tx)
@@ -109,6 +131,8 @@ def run_opconf(case):
                     cls = "wrong-result"
                     if op == 113 and got[1] == list(st) + list(st[-6:-4]):
                         cls = "wrong-result/copies-5th-6th-items-instead-of-moving-them"
+                if op in (121, 122) and st and len(st[-1]) > 4 and ref == ("fail",):
+                    cls = "index-longer-than-4-bytes"
                 res.violation(
                     f"C07/opconf/op{op}/{cls}",
                     {"engine": "opconf", "case": dict(case, only=[[x.hex() for x in st], [x.hex() for x in alt]])},
@@ -124,10 +148,10 @@ def run_opconf(case):
 
 
 # ------------------------------------------------------------------ layer 2: program-level search
-def prog_ops():
+def prog_ops(values=V6):
     """Transition alphabet: the 6 pushes + every implemented opcode except signature and flow-control ops."""
     ops = [o for o in implemented_ops() if o not in SIG_OPS and o not in FLOW_OPS]
-    return [("push", v) for v in V6] + [("op", o) for o in ops]
+    return [("push", v) for v in values] + [("op", o) for o in ops]
 
 
 def state_program(stack, alt):
@@ -139,7 +163,9 @@ def state_program(stack, alt):
 
 
 def witnessy(stack):
-    return len(stack) == 2 and stack[0] in (b"", b"\x01") and len(stack[1]) in (20, 32)
+    """Exactly the stacks on which Script.evaluate, after a data push, switches to witness-program handling
+    (0 <20 bytes>, 0 <32 bytes>, 1 <32 bytes>): excluded by the statement."""
+    return len(stack) == 2 and ((stack[0] == b"" and len(stack[1]) in (20, 32)) or (stack[0] == b"\x01" and len(stack[1]) == 32))
 
 
 def observer(stack, alt, cur_depth_stack=None):
@@ -207,34 +233,56 @@ def gen_program(tier, seed):
     for d in range(0, dmax + 1):
         for st in itertools.product(range(len(V6)), repeat=d):
             cases.append({"stack": list(st), "tier": tier})
+    # the same search over the second value set (multi-byte numbers, 20-byte blob)
+    # (states made only of values common to both sets were explored above: there only the new pushes are taken)
+    for d in range(0, dmax + 1):
+        for st in itertools.product(range(len(V6B)), repeat=d):
+            cases.append({"stack": list(st), "tier": tier, "alpha": 1})
     return cases
 
 
 def run_program_case(case):
     res = Res()
-    tx = lib_tx()
-    stack = [V6[i] for i in case["stack"]]
-    alts = [[]] + [[v] for v in V6]
+    tx1 = lib_tx()
+    tx2 = lib_tx(CTX2["version"], CTX2["locktime"], CTX2["sequence"])
+    rtx2 = ref_tx(CTX2["version"], CTX2["locktime"], CTX2["sequence"])
+    V = VSETS[case.get("alpha", 0)]
+    stack = [V[i] for i in case["stack"]]
+    alts = [[]] + [[v] for v in V]
     only = case.get("only")
+    # CLTV / CSV are also taken in the second transaction context, where they can succeed
+    transitions = prog_ops(V) + [("op@ctx2", o) for o in sorted(TIME_OPS)]
+    if len(stack) >= 2 and witnessy(stack[:2]):
+        # the program that builds this state passes through the two-element stack the evaluator treats as a witness program
+        res.skip("state is only reachable through a witness-program pattern (excluded)", len(alts))
+        return res
     for alt in alts:
-        res.states += 1
+        # second value set: a state that already belongs to the first search only takes the pushes that are new
+        old_state = case.get("alpha", 0) == 1 and all(e in V6 for e in stack + alt)
+        if not old_state:
+            res.states += 1
         base = state_program(stack, alt)
-        for kind, x in prog_ops():
+        for kind, x in transitions:
             label = x.hex() if kind == "push" else x
             if only and only != [[a.hex() for a in alt], kind, label]:
                 continue
+            if old_state and not (kind == "push" and x not in V6):
+                continue
             cmd = x
             prog = base + [cmd]
+            tx, rtx = (tx2, rtx2) if kind == "op@ctx2" else (tx1, None)
             if kind == "push" and witnessy(stack + [x]):
                 res.skip("push creates a witness-program pattern (excluded)")
                 continue
             try:
-                verdict, state = ref_eval(prog)
+                verdict, state = ref_eval(prog, rtx)
             except interp.OutOfStatement:
                 res.skip("out of statement (operand > 4 bytes)")
                 continue
             res.transitions += 1
             vc = {"engine": "program", "case": dict(case, only=[[a.hex() for a in alt], kind, label])}
+            if kind == "op@ctx2":
+                label = f"{x}@ctx2"
             got = lib_eval(prog, tx)
             if got != verdict:
                 cls = "final-truthiness" if state is not None and state[0] and not verdict and got else ("accepts" if got else "rejects")
@@ -342,8 +390,25 @@ def run_tours(case):
 ATOMS = [0x00, 0x51, 0x52, b"\x80", 0x75, 0x76]  # OP_0, OP_1, OP_2, push(80) (= false), DROP, DUP
 
 
+MAX_ELSE = 3
+
+
+def else_counts(prog):
+    """Largest number of ELSE tokens belonging to one IF/NOTIF of the program (0 if unbalanced)."""
+    open_, best = [], 0
+    for c in prog:
+        if c in (99, 100):
+            open_.append(0)
+        elif c == 103 and open_:
+            open_[-1] += 1
+            best = max(best, open_[-1])
+        elif c == 104 and open_:
+            open_.pop()
+    return best
+
+
 def nested_programs(tokens, depth):
-    """All token lists with exactly `tokens` tokens: item* ; item = atom | IF/NOTIF prog [ELSE prog] ENDIF."""
+    """All token lists with exactly `tokens` tokens: item* ; item = atom | IF/NOTIF prog (ELSE prog){0..MAX_ELSE} ENDIF."""
     memo = {}
 
     def progs(n, d):
@@ -383,18 +448,41 @@ def nested_programs(tokens, depth):
                     for t in progs(i, d - 1):
                         for f in progs(inner - 1 - i, d - 1):
                             out.append([opener] + t + [103] + f + [104])
+            # several ELSE for one IF (consensus: every ELSE toggles): e ELSE tokens separate e + 1 bodies
+            for e in range(2, MAX_ELSE + 1):
+                if inner >= e:
+                    for bodies in split_bodies(inner - e, e + 1, d - 1):
+                        body = list(bodies[0])
+                        for b in bodies[1:]:
+                            body += [103] + b
+                        out.append([opener] + body + [104])
         cmemo[key] = out
+        return out
+
+    def split_bodies(n, parts, d):
+        """All lists of `parts` programs with n tokens in total."""
+        if parts == 1:
+            return [[t] for t in progs(n, d)]
+        out = []
+        for i in range(0, n + 1):
+            for t in progs(i, d):
+                for rest in split_bodies(n - i, parts - 1, d):
+                    out.append([t] + rest)
         return out
 
     return progs(tokens, depth)
 
 
 def gen_ifnest(tier, seed):
-    nmax = 5 if tier == "quick" else 6
+    nmax = 6 if tier == "quick" else 7
     cases = []
     for n in range(1, nmax + 1):
         for first in range(len(ATOMS) + 2):
-            cases.append({"tokens": n, "first": first, "depth": 3})
+            if n >= 6:  # large classes are dealt round-robin into 6 cases so that all workers are busy
+                for part in range(6):
+                    cases.append({"tokens": n, "first": first, "depth": 3, "part": part, "parts": 6})
+            else:
+                cases.append({"tokens": n, "first": first, "depth": 3})
     return cases
 
 
@@ -406,11 +494,15 @@ def run_ifnest(case):
     firsts = ATOMS + [99, 100]
     want = firsts[case["first"]]
     only = case.get("only")
+    k = -1
     for prog in progs:
         if prog[0] != want:
             continue
         if 99 not in prog and 100 not in prog and n > 2:
             continue  # straight-line programs are covered by the program engine
+        k += 1
+        if case.get("parts") and k % case["parts"] != case["part"]:
+            continue
         # every condition value comes from the program itself; prefix with 0/1/2 pushes to vary the initial stack
         for prefix in ([], [0x51], [0x00], [0x51, 0x00], [0x00, 0x51], [b"\x80", 0x51]):
             full = prefix + prog
@@ -424,25 +516,30 @@ def run_ifnest(case):
                 continue
             got = lib_eval(full, tx)
             vc = {"engine": "ifnest", "case": dict(case, only=key)}
+            # a program in which one IF has several ELSE is its own class (different defect, different fingerprint)
+            me = "several-else-per-if/" if else_counts(prog) >= 2 else ""
             if got != verdict:
                 cls = "final-truthiness" if state is not None and state[0] and not verdict and got else ("accepts" if got else "rejects")
-                res.violation(f"C07/ifnest/{cls}", vc, got, verdict, f"conditional program {key}: verdict differs from consensus")
+                res.violation(f"C07/ifnest/{me}{cls}", vc, got, verdict, f"conditional program {key}: verdict differs from consensus")
                 continue
             if state is None:
                 if lib_eval(full + [0x51], tx):
-                    res.violation("C07/ifnest/failure-not-fatal", vc, True, False, "failing conditional program is rescued by a trailing OP_1")
+                    res.violation(f"C07/ifnest/{me}failure-not-fatal", vc, True, False, "failing conditional program is rescued by a trailing OP_1")
                 else:
-                    res.bulk("fail==consensus", 1, 1)
+                    res.bulk("fail==consensus" + ("(several ELSE)" if me else ""), 1, 1)
                 continue
             obs = observer(state[0], state[1])
             if not lib_eval(full + obs, tx):
-                res.violation("C07/ifnest/wrong-state", vc, "observer rejects", {"stack": state[0]}, f"conditional program {key}: resulting stack differs from consensus")
+                res.violation(f"C07/ifnest/{me}wrong-state", vc, "observer rejects", {"stack": state[0]}, f"conditional program {key}: resulting stack differs from consensus")
             else:
-                res.bulk("state==consensus", 1, 1)
+                res.bulk("state==consensus" + ("(several ELSE)" if me else ""), 1, 1)
     return res
 
 
 # ------------------------------------------------------------------ number codec
+NUM_EDGE_BYTES = (0x00, 0x01, 0x7F, 0x80, 0x81, 0xFF)
+
+
 def gen_numcodec(tier, seed):
     cases = [{"kind": "int", "lo": lo, "hi": min(lo + 9999, 70000)} for lo in range(-70000, 70001, 10000)]
     for k in (7, 8, 15, 16, 23, 24, 31):
@@ -451,6 +548,18 @@ def gen_numcodec(tier, seed):
             cases.append({"kind": "int", "lo": max(c - 300, -(2**31) + 1), "hi": min(c + 300, 2**31 - 1)})
     cases.append({"kind": "int", "lo": 2**31 - 600, "hi": 2**31 - 1})
     cases.append({"kind": "int", "lo": -(2**31) + 1, "hi": -(2**31) + 600})
+    # strided sweep through the whole range [-2^31+1, 2^31-1] (every 65521st integer, 16 slices) and the byte
+    # boundary patterns b << 8j (+-1) for b in {7f, 80, 81, ff, 100}
+    lo, hi = -(2**31) + 1, 2**31 - 1
+    width = (hi - lo) // 16 + 1
+    for k in range(16):
+        cases.append({"kind": "stride", "lo": lo + k * width, "hi": min(lo + (k + 1) * width - 1, hi), "step": 65521})
+    cases.append({"kind": "edges"})
+    # 4-byte strings: first and last byte from 6 boundary values, the two middle bytes exhaustive (quick: third byte
+    # from the 6 boundary values)
+    for f in NUM_EDGE_BYTES:
+        for l in NUM_EDGE_BYTES:
+            cases.append({"kind": "bytes4", "first": f, "last": l, "full": tier == "thorough"})
     cases.append({"kind": "bytes", "len": 0, "first": 0})
     cases.append({"kind": "bytes", "len": 1, "first": -1})
     for f in range(256):
@@ -472,8 +581,14 @@ def run_numcodec(case):
     res = Res()
     vcb = lambda x: {"engine": "numcodec", "case": dict(case, only=x)}
     only = case.get("only")
-    if case["kind"] == "int":
-        for i in range(case["lo"], case["hi"] + 1):
+    if case["kind"] in ("int", "stride", "edges"):
+        if case["kind"] == "int":
+            ints = range(case["lo"], case["hi"] + 1)
+        elif case["kind"] == "stride":
+            ints = range(case["lo"], case["hi"] + 1, case["step"])
+        else:
+            ints = sorted({sg * ((b << (8 * j)) + d) for sg in (1, -1) for b in (0x7F, 0x80, 0x81, 0xFF, 0x100) for j in range(4) for d in (-1, 0, 1) if abs((b << (8 * j)) + d) <= 2**31 - 1})
+        for i in ints:
             if only is not None and only != i:
                 continue
             exp = interp.num_encode(i)
@@ -500,7 +615,12 @@ def run_numcodec(case):
             return
         res.bulk("bytes decode==ref", 1, 1)
 
-    if case["kind"] == "bytes":
+    if case["kind"] == "bytes4":
+        thirds = range(256) if case["full"] else NUM_EDGE_BYTES
+        for g in range(256):
+            for h in thirds:
+                check(bytes([case["first"], g, h, case["last"]]))
+    elif case["kind"] == "bytes":
         if case["len"] == 0:
             check(b"")
         elif case["len"] == 1:
@@ -519,7 +639,44 @@ def run_numcodec(case):
 # ------------------------------------------------------------------ timelocks
 LOCKTIMES = [0, 1, 99, 100, 101, 499999999, 500000000, 500000001, 2**31, 2**32 - 1]
 SEQS = [0, 1, 99, 100, 101, 0xFFFF, 0x10000, (1 << 22), (1 << 22) | 100, (1 << 22) | 0xFFFF, (1 << 31), (1 << 31) | 100, 0xFFFFFFFE, 0xFFFFFFFF]
+# both flags set; every bit below bit 31 set; unused bits 23..30 set next to a block / time value
+SEQS += [(1 << 31) | (1 << 22) | 100, 0x7FFFFFFF, (1 << 30) | 100, (1 << 30) | (1 << 22) | 100]
 OPERANDS = [-1, 0, 1, 99, 100, 101, 0xFFFF, 0x10000, 0x10064, (1 << 22), (1 << 22) | 100, (1 << 22) | 101, 499999999, 500000000, 500000001, 2**31 - 1, 2**31, (1 << 31) | 100, 2**32 - 1]
+OPERANDS += [(1 << 30) | 100, (1 << 30) | 101, (1 << 30) | (1 << 22) | 100, (1 << 30) | (1 << 22) | 101]
+
+
+def pad_num(v, length):
+    """Non-minimal script number of exactly `length` bytes with value v (None if v does not fit)."""
+    e = bytearray(interp.num_encode(v))
+    if len(e) > length:
+        return None
+    if len(e) == length:
+        return bytes(e)
+    neg = bool(e) and bool(e[-1] & 0x80) and v < 0
+    if e and v < 0:
+        e[-1] &= 0x7F
+    e += bytes(length - len(e))
+    if neg:
+        e[-1] |= 0x80
+    return bytes(e)
+
+
+def operand_bytes(operand):
+    """operand descriptor -> stack ([] for "empty"); int = minimal encoding; ["pad", v, n] = zero-padded to n bytes."""
+    if operand == "empty":
+        return []
+    if isinstance(operand, list):
+        return [pad_num(operand[1], operand[2])]
+    return [interp.num_encode(operand)]
+
+
+def all_operands():
+    out = list(OPERANDS) + ["empty"]
+    for n in (5, 6):
+        for v in OPERANDS:
+            if len(interp.num_encode(v)) < n:
+                out.append(["pad", v, n])
+    return out
 
 
 def gen_timelock(tier, seed):
@@ -535,7 +692,20 @@ def gen_timelock(tier, seed):
             for sq in (0, 100, (1 << 22) | 100, 0xFFFFFFFE, 0xFFFFFFFF):
                 for others in ([0xFFFFFFFF], [0], [0xFFFFFFFF, 5], [(1 << 22) | 100], [1 << 31]):
                     cases.append({"op": op, "lt": lt, "seq": sq, "others": others})
+                # the evaluated input is the first / a middle one: inputs after it must not matter either
+                for others, after in (([], [0xFFFFFFFF]), ([], [0, (1 << 22) | 100]), ([0xFFFFFFFF], [5]), ([100], [0xFFFFFFFF, 1 << 31])):
+                    cases.append({"op": op, "lt": lt, "seq": sq, "others": others, "after": after})
     return cases
+
+
+def minimal_form_agrees(op, value, tx, rtx, idx):
+    """Does the library agree with the reference for the minimally encoded operand of the same value (op function)?"""
+    st = [interp.num_encode(value)]
+    ref = interp.run_program(bytes([op]), st, [], tx=rtx, idx=idx)
+    ls = list(st)
+    r = attempt(lib_call_op, op, ls, [], tx, idx)
+    got = ("fail",) if isinstance(r, Rejected) or not r else ("ok", [bytes(x) for x in ls], [])
+    return got == ref
 
 
 def run_timelock(case):
@@ -543,14 +713,18 @@ def run_timelock(case):
     op = case["op"]
     only = case.get("only")
     others = case.get("others", [])
+    after = case.get("after", [])
     idx = len(others)
-    for ver in (0, 1, 2, 3, 2**31, 2**32 - 1) if not others else (1, 2):
-        tx = lib_tx(ver, case["lt"], case["seq"], others)
-        rtx = ref_tx(ver, case["lt"], case["seq"], others)
-        for operand in OPERANDS + ["empty"]:
+    multi = bool(others or after)
+    for ver in (0, 1, 2, 3, 2**31, 2**32 - 1) if not multi else (1, 2):
+        tx = lib_tx(ver, case["lt"], case["seq"], others, after)
+        rtx = ref_tx(ver, case["lt"], case["seq"], others, after)
+        for operand in all_operands():
             if only and only != [ver, operand]:
                 continue
-            st = [] if operand == "empty" else [interp.num_encode(operand)]
+            st = operand_bytes(operand)
+            toolong = bool(st) and len(st[0]) > 5
+            value = operand[1] if isinstance(operand, list) else operand
             ref = interp.run_program(bytes([op]), st, [], tx=rtx, idx=idx)
             ls = list(st)
             r = attempt(lib_call_op, op, ls, [], tx, idx)
@@ -558,27 +732,371 @@ def run_timelock(case):
             vc = {"engine": "timelock", "case": dict(case, only=[ver, operand])}
             if got != ref:
                 nm = "cltv" if op == 177 else "csv"
-                if operand != "empty" and op == 178 and operand >= 0 and operand & (1 << 31):
+                if toolong:
+                    cls = "operand-longer-than-5-bytes"
+                elif operand != "empty" and op == 178 and value >= 0 and value & (1 << 31):
                     cls = "disable-flag-operand"
                 elif got == ("fail",):
                     cls = "fails-where-consensus-succeeds"
                 else:
                     cls = "accepts-where-consensus-fails"
-                res.violation(f"C07/timelock/{nm}/{cls}" + ("/multi-input" if others else ""), vc, got, ref, f"{nm} with operand {operand}, locktime {case['lt']}, sequence {case['seq']}, version {ver}" + (f", evaluated input {idx} of {idx + 1}, other sequences {others}" if others else ""))
+                if isinstance(operand, list) and not toolong and minimal_form_agrees(op, value, tx, rtx, idx):
+                    cls += "/padded-operand"  # only the non-minimal encoding is treated wrongly
+                res.violation(f"C07/timelock/{nm}/{cls}" + ("/multi-input" if multi and not toolong else ""), vc, got, ref, f"{nm} with operand {operand}, locktime {case['lt']}, sequence {case['seq']}, version {ver}" + (f", evaluated input {idx} of {idx + 1 + len(after)}, other sequences {others} / {after}" if multi else ""))
             else:
                 res.bulk("timelock==consensus(ok)" if ref[0] == "ok" else "timelock==consensus(fail)", 1, 1)
             # and through Script.evaluate (program level): <operand> CLTV/CSV DROP 1
             if operand != "empty":
-                prog = [interp.num_encode(operand), op, 0x75, 0x51]
+                prog = [st[0], op, 0x75, 0x51]
                 v = interp.run_program(to_bytes(prog), tx=rtx, idx=idx)
                 verdict = v[0] == "ok"
                 g2 = lib_eval(prog, tx, idx)
                 if g2 != verdict:
                     nm = "cltv" if op == 177 else "csv"
-                    cls = "disable-flag-operand" if (op == 178 and operand >= 0 and operand & (1 << 31)) else ("rejects" if verdict else "accepts")
+                    cls = "operand-longer-than-5-bytes" if toolong else "disable-flag-operand" if (op == 178 and value >= 0 and value & (1 << 31)) else ("rejects" if verdict else "accepts")
+                    if isinstance(operand, list) and not toolong and minimal_form_agrees(op, value, tx, rtx, idx):
+                        cls += "/padded-operand"
                     res.violation(f"C07/timelock/{nm}-evaluate/{cls}", vc, g2, verdict, "Script.evaluate verdict differs from consensus")
                 else:
                     res.bulk("evaluate==consensus", 1, 1)
+    return res
+
+
+# ------------------------------------------------------------------ flow: conditionals mixed with other opcodes
+# OP_0, OP_1, push(02), IF, NOTIF, ELSE, ENDIF, VERIFY, RETURN, TOALTSTACK, FROMALTSTACK, DEPTH, DUP, DROP, NOT
+FLOW_TOKENS = [0x00, 0x51, b"\x02", 99, 100, 103, 104, 105, 106, 107, 108, 116, 118, 117, 145]
+
+
+def properly_nested(prog):
+    depth = 0
+    for c in prog:
+        if c in (99, 100):
+            depth += 1
+        elif c in (103, 104):
+            if depth == 0:
+                return False
+            if c == 104:
+                depth -= 1
+    return depth == 0
+
+
+def gen_flow(tier, seed):
+    lmax = 5 if tier == "quick" else 6
+    n = len(FLOW_TOKENS)
+    cases = [{"len": 1, "head": [i]} for i in range(n)]
+    for L in range(2, lmax + 1):
+        for i in range(n):
+            for j in range(n):
+                cases.append({"len": L, "head": [i, j]})
+    return cases
+
+
+def lib_eval_parsed(raw, tx, idx=0):
+    """The same program entering as bytes: Script.parse(raw=...).evaluate, twice on the same object."""
+    from buidl.script import Script
+
+    sc = attempt(lambda: Script.parse(raw=raw))
+    if isinstance(sc, Rejected):
+        return False
+    r = attempt(lambda: sc.evaluate(tx, idx))
+    v1 = (not isinstance(r, Rejected)) and bool(r)
+    r2 = attempt(lambda: sc.evaluate(tx, idx))
+    v2 = (not isinstance(r2, Rejected)) and bool(r2)
+    if v1 != v2:
+        raise EvalNotRepeatable(f"parsed script: first evaluation {v1}, second evaluation of the same Script object {v2}")
+    return v1
+
+
+def run_flow(case):
+    res = Res()
+    tx = lib_tx()
+    head = [FLOW_TOKENS[i] for i in case["head"]]
+    only = case.get("only")
+    for tail in itertools.product(FLOW_TOKENS, repeat=case["len"] - len(head)):
+        prog = head + list(tail)
+        key = [c if isinstance(c, int) else c.hex() for c in prog]
+        if only and only != key:
+            continue
+        if not properly_nested(prog):
+            res.skip("IF/NOTIF/ELSE/ENDIF not properly nested (outside the statement)")
+            continue
+        try:
+            verdict, state = ref_eval(prog)
+        except interp.OutOfStatement:
+            res.skip("out of statement (operand > 4 bytes)")
+            continue
+        vc = {"engine": "flow", "case": dict(case, only=key)}
+        me = "several-else-per-if/" if else_counts(prog) >= 2 else ""
+        got = lib_eval(prog, tx)
+        if got != verdict:
+            cls = "final-truthiness" if state is not None and state[0] and not verdict and got else ("accepts" if got else "rejects")
+            res.violation(f"C07/flow/{me}{cls}", vc, got, verdict, f"program {key}: verdict differs from consensus")
+            continue
+        gotp = lib_eval_parsed(to_bytes(prog), tx)
+        if gotp != verdict:
+            res.violation(f"C07/flow/{me}parsed-from-bytes/{'accepts' if gotp else 'rejects'}", vc, gotp, verdict, f"program {key} entering as bytes through Script.parse: verdict differs from consensus")
+            continue
+        nt = 1 if (99 in prog or 100 in prog) else 0
+        if state is None:
+            if lib_eval(prog + [0x51], tx):
+                res.violation(f"C07/flow/{me}failure-not-fatal", vc, True, False, f"failing program {key} is rescued by a trailing OP_1")
+            else:
+                res.bulk("fail==consensus", 1, nt)
+            continue
+        obs = observer(state[0], state[1])
+        if not lib_eval(prog + obs, tx):
+            res.violation(f"C07/flow/{me}wrong-state", vc, "observer rejects", {"stack": state[0], "alt": state[1]}, f"program {key}: resulting stack / alt-stack differs from consensus")
+        else:
+            res.bulk("state==consensus", 1, nt)
+    return res
+
+
+# ------------------------------------------------------------------ longbool: truth value of long elements
+LONG_VALUES = [b"\x00" * 4, b"\x00" * 3 + b"\x80", b"\x00" * 5, b"\x00" * 4 + b"\x80", b"\x01" + b"\x00" * 4, b"\x80" + b"\x00" * 4, b"\x00" * 4 + b"\x01", b"\x00" * 4 + b"\x81"]
+LONG_VALUES += [b"\x00" * 20, b"\x00" * 19 + b"\x80", b"\x00" * 19 + b"\x01", b"\x00" * 33, b"\x00" * 32 + b"\x80", b"\x00" * 16 + b"\x80" + b"\x00" * 16, b"\x00" * 75, b"\x00" * 75 + b"\x80", b"\x00" * 76, b"\x00" * 255 + b"\x80", b"\x00" * 519 + b"\x80", b"\x00" * 520, b"\x00" * 519 + b"\x01"]
+LONG_TEMPLATES = {
+    "final-top": lambda v: [v],
+    "final-top-over-other-items": lambda v: [0x51, 0x52, v],
+    "if": lambda v: [v, 99, 0x51, 103, 0x00, 104],
+    "notif": lambda v: [v, 100, 0x51, 103, 0x00, 104],
+    "if-nested": lambda v: [0x51, 99, v, 99, 0x52, 103, 0x53, 104, 104],
+    "verify": lambda v: [v, 105, 0x51],
+    "ifdup": lambda v: [v, 115],
+    "equalverify-then-top": lambda v: [v, 118, v, 0x88],
+}
+
+
+def gen_longbool(tier, seed):
+    return [{"sub": "longbool", "tmpl": t, "v": i} for t in sorted(LONG_TEMPLATES) for i in range(len(LONG_VALUES))]
+
+
+def run_longbool(case):
+    res = Res()
+    tx = lib_tx()
+    v = LONG_VALUES[case["v"]]
+    pre = case.get("only")
+    for prefix in ([], [0x52], [0x51], [b"\x07", 107]):
+        key = [c if isinstance(c, int) else c.hex() for c in prefix]
+        if pre is not None and pre != key:
+            continue
+        prog = prefix + LONG_TEMPLATES[case["tmpl"]](v)
+        verdict, state = ref_eval(prog)
+        vc = {"engine": "elements", "case": dict(case, only=key)}
+        got = lib_eval(prog, tx)
+        if got != verdict:
+            res.violation(f"C07/elements/longbool/{case['tmpl']}/{'accepts' if got else 'rejects'}", vc, got, verdict, f"{case['tmpl']} on a {len(v)}-byte element {v.hex()[:24]}..: verdict differs from consensus (truth value: false iff all bytes zero, last byte may be 80)")
+            continue
+        if state is None:
+            if lib_eval(prog + [0x51], tx):
+                res.violation(f"C07/elements/longbool/{case['tmpl']}/failure-not-fatal", vc, True, False, "failure is rescued by a trailing OP_1")
+            else:
+                res.ok("fail==consensus", nontrivial=(case["tmpl"], case["v"], tuple(key)))
+            continue
+        obs = observer(state[0], state[1])
+        if obs is None:
+            res.skip("observer would create a witness-program pattern")
+            continue
+        if not lib_eval(prog + obs, tx):
+            res.violation(f"C07/elements/longbool/{case['tmpl']}/wrong-state", vc, "observer rejects", {"stack": state[0], "alt": state[1]}, "resulting stack differs from consensus")
+        else:
+            res.ok("state==consensus", nontrivial=(case["tmpl"], case["v"], tuple(key)), sample={"program": [c if isinstance(c, int) else c.hex() for c in prog], "verdict": verdict} if case["v"] == 3 and not prefix else None)
+    return res
+
+
+# ------------------------------------------------------------------ wire: programs entering as bytes, every push encoding
+def enc_push(data, enc):
+    """enc 0 = direct length byte (OP_0 for the empty string), 1/2/4 = PUSHDATA1/2/4; None if the length does not fit."""
+    n = len(data)
+    if enc == 0:
+        return bytes([n]) + data if n <= 75 else None
+    if enc == 1:
+        return b"\x4c" + bytes([n]) + data if n <= 0xFF else None
+    if enc == 2:
+        return b"\x4d" + n.to_bytes(2, "little") + data
+    return b"\x4e" + n.to_bytes(4, "little") + data
+
+
+WIRE_LENGTHS = [0, 1, 2, 5, 33, 75, 76, 77, 255, 256, 257, 519, 520]
+# X, Y = the data element (Y: second occurrence, own encoding); N = its length as a minimal number push
+WIRE_TEMPLATES = {
+    "single": ["X"],
+    "equal": ["X", "Y", 0x87],
+    "size": ["X", 0x82, "N", 0x88, 0x75, 0x51],
+    "in-untaken-branch": [0x00, 99, "X", 104, 0x51],
+    "in-taken-branch": [0x51, 99, "X", 103, 0x00, 104],
+    "sha256": ["X", 0xA8, "H", 0x87],
+    "dup-hash160-equalverify": ["X", 0x76, 0xA9, "H160", 0x88],
+    "toalt-fromalt": ["X", 107, "Y", 108, 0x87],
+}
+
+
+def gen_wire(tier, seed):
+    return [{"sub": "wire", "tmpl": t, "len": L, "seed": seed} for t in sorted(WIRE_TEMPLATES) for L in WIRE_LENGTHS]
+
+
+def run_wire(case):
+    import hashlib
+
+    from mc.core import filler
+    from mc.ref import txref
+
+    res = Res()
+    tx = lib_tx()
+    L = case["len"]
+    data = bytearray(filler(case["seed"], "wire", L, L))
+    if L:
+        data[0] |= 1  # a true value whatever the seed
+        data[-1] &= 0x7F
+    data = bytes(data)
+    tmpl = WIRE_TEMPLATES[case["tmpl"]]
+    two = "Y" in tmpl
+    only = case.get("only")
+    for ex in (0, 1, 2, 4):
+        for ey in (0, 1, 2, 4) if two else (0,):
+            if only and only != [ex, ey]:
+                continue
+            px, py = enc_push(data, ex), enc_push(data, ey)
+            if px is None or py is None:
+                continue
+            raw = b""
+            for t in tmpl:
+                if t == "X":
+                    raw += px
+                elif t == "Y":
+                    raw += py
+                elif t == "N":
+                    raw += txref.push(interp.num_encode(L)) if L else b"\x00"
+                elif t == "H":
+                    raw += txref.push(hashlib.sha256(data).digest())
+                elif t == "H160":
+                    raw += txref.push(txref.h160(data))
+                else:
+                    raw += bytes([t])
+            r = interp.run_program(raw)
+            verdict = r[0] == "ok" and bool(r[1]) and interp.cast_to_bool(r[1][-1])
+            vc = {"engine": "elements", "case": dict(case, only=[ex, ey])}
+            encname = {0: "direct", 1: "pushdata1", 2: "pushdata2", 4: "pushdata4"}
+            got = lib_eval_parsed(raw, tx)
+            if got != verdict:
+                res.violation(f"C07/elements/wire/{encname[ex] if ex else encname[ey]}/{'accepts' if got else 'rejects'}", vc, got, verdict, f"Script.parse(raw).evaluate of template {case['tmpl']} with a {L}-byte element pushed as {encname[ex]}" + (f" / {encname[ey]}" if two else "") + ": verdict differs from consensus")
+                continue
+            if r[0] == "ok":
+                obs = observer(r[1], r[2])
+                if obs is None:
+                    res.skip("observer would create a witness-program pattern")
+                    continue
+                if not lib_eval_parsed(raw + to_bytes(obs), tx):
+                    res.violation(f"C07/elements/wire/{encname[ex] if ex else encname[ey]}/wrong-state", vc, "observer rejects", {"stack": r[1], "alt": r[2]}, f"parsed program (template {case['tmpl']}, {L}-byte element): resulting stack differs from consensus")
+                    continue
+            res.ok("parsed==consensus(accept)" if verdict else "parsed==consensus(reject)", nontrivial=(case["tmpl"], L, ex, ey) if (ex or ey) else None, sample={"raw": raw.hex()[:80], "verdict": verdict} if L == 76 and ex == 1 else None)
+    return res
+
+
+# ------------------------------------------------------------------ limits: element size 520, script size 10000
+LIMIT_PUSH_LENGTHS = [519, 520, 521, 522, 600, 1000, 4000]
+# X = the element; executed templates run the push, unexecuted ones only carry it in a branch that is not taken
+LIMIT_TEMPLATES = {
+    "executed": {
+        "alone": ["X"],
+        "drop-1": ["X", 0x75, 0x51],
+        "in-taken-if": [0x51, 99, "X", 104],
+        "in-taken-else": [0x00, 99, 0x00, 103, "X", 104],
+        "in-taken-notif": [0x00, 100, "X", 104],
+        "size-then-nip": ["X", 0x82, 0x77],
+    },
+    "unexecuted": {
+        "in-untaken-if": [0x00, 99, "X", 104, 0x51],
+        "in-untaken-else": [0x51, 99, 0x51, 103, "X", 104],
+        "in-untaken-notif": [0x51, 100, "X", 104, 0x51],
+        "nested-in-untaken-if": [0x00, 99, 0x51, 99, "X", 104, 104, 0x51],
+        "untaken-if-nested-in-taken-if": [0x51, 99, 0x00, 99, "X", 104, 104, 0x51],
+        "in-untaken-else-of-notif": [0x00, 100, 0x51, 103, "X", 104],
+    },
+}
+SCRIPT_SIZES = [9900, 9990, 9999, 10000, 10001, 10002, 10100, 10200]
+
+
+def sized_program(total, fill):
+    """A program of exactly `total` bytes and 31 operations that leaves [01]: 9 x (push 520, push 520, 2DROP),
+    push 300, push b, 2DROP, OP_1 (b adjusts the size; every push <= 520 bytes)."""
+    cmds = []
+    for k in range(9):
+        cmds += [fill(520, 2 * k), fill(520, 2 * k + 1), 109]
+    used = 9 * (523 * 2 + 1) + (3 + 300) + 1 + 1
+    rest = total - used  # bytes of the last push including its push opcode
+    b = rest - 3 if rest - 3 > 255 else rest - 2 if rest - 2 > 75 else rest - 1
+    cmds += [fill(300, 18), fill(b, 19), 109, 0x51]
+    return cmds
+
+
+def gen_limits(tier, seed):
+    cases = []
+    for cls in ("executed", "unexecuted"):
+        for t in sorted(LIMIT_TEMPLATES[cls]):
+            for L in LIMIT_PUSH_LENGTHS:
+                cases.append({"sub": "limits", "kind": cls, "tmpl": t, "len": L, "seed": seed})
+    for T in SCRIPT_SIZES:
+        cases.append({"sub": "limits", "kind": "size", "total": T, "seed": seed})
+    return cases
+
+
+def gen_elements(tier, seed):
+    return gen_limits(tier, seed) + gen_wire(tier, seed) + gen_longbool(tier, seed)
+
+
+def run_elements(case):
+    return {"limits": run_limits, "wire": run_wire, "longbool": run_longbool}[case["sub"]](case)
+
+
+def run_limits(case):
+    from mc.core import filler
+
+    res = Res()
+    tx = lib_tx()
+
+    def fill(n, i):
+        b = bytearray(filler(case["seed"], "limits", i, n))
+        if n:
+            b[0] |= 1
+            b[-1] &= 0x7F
+        return bytes(b)
+
+    only = case.get("only")
+    if case["kind"] == "size":
+        cmds = sized_program(case["total"], fill)
+        raw = to_bytes(cmds)
+        assert len(raw) == case["total"] and all(len(c) <= 520 for c in cmds if isinstance(c, bytes)) and len(cmds) <= 40, (len(raw), case)
+        over = case["total"] > 10000
+        entries = [("list", cmds), ("parsed", raw)]
+        fp_over, fp_within = "C07/elements/limits/script>10000", "C07/elements/limits/script<=10000"
+    else:
+        L = case["len"]
+        x = fill(L, 0)
+        cmds = [x if t == "X" else t for t in LIMIT_TEMPLATES[case["kind"]][case["tmpl"]]]
+        over = L > 520
+        raws = [("parsed-pushdata2", b"".join(enc_push(c, 2) if c is x else bytes([c]) for c in cmds)), ("parsed-pushdata4", b"".join(enc_push(c, 4) if c is x else bytes([c]) for c in cmds))]
+        entries = [("list", cmds)] + raws
+        fp_over, fp_within = f"C07/elements/limits/push>520-{case['kind']}", f"C07/elements/limits/push<=520-{case['kind']}"
+    for name, prog in entries:
+        if only and only != name:
+            continue
+        raw = prog if isinstance(prog, bytes) else to_bytes(prog)
+        r = interp.run_program(raw)
+        verdict = r[0] == "ok" and bool(r[1]) and interp.cast_to_bool(r[1][-1])
+        assert not (over and verdict)
+        got = lib_eval(prog, tx) if name == "list" else lib_eval_parsed(prog, tx)
+        vc = {"engine": "elements", "case": dict(case, only=name)}
+        what = (f"script of {case['total']} bytes (31 operations, every push <= 520 bytes)" if case["kind"] == "size" else f"{case['len']}-byte push, {case['kind']} ({case['tmpl']})") + f", entering as {name}"
+        if got != verdict:
+            res.violation(fp_over if over else fp_within + ("/accepts" if got else "/rejects"), vc, got, verdict, what + ": verdict differs from consensus (limits: 520 bytes per pushed element, executed or not; 10000 bytes per script)")
+            continue
+        if over:
+            # beyond the limit nothing may rescue the script
+            g2 = lib_eval(prog + [0x51], tx) if name == "list" else lib_eval_parsed(prog + b"\x51", tx)
+            if g2:
+                res.violation(fp_over, vc, g2, False, what + " followed by OP_1 is accepted")
+                continue
+        res.ok("limit==consensus(over)" if over else "limit==consensus(within)", nontrivial=(case["kind"], case.get("tmpl"), case.get("len"), case.get("total"), name))
     return res
 
 
@@ -595,11 +1113,14 @@ def repeatable(engine, f):
 
 
 def engines(tier, seed):
+    q = tier == "quick"
     return [
-        Engine("opconf", gen_opconf, run_opconf, kind="E1", rule="every implemented non-signature, non-flow opcode called through OP_CODE_FUNCTIONS on every stack of depth <= 3 over 14 values and depth 4..6 (thorough ..7) over 4 values plus distinct-element stacks up to depth 9 (alt-stack depth 0..2 for the alt-stack ops): resulting stack/alt-stack or failure == reference consensus interpreter; operands > 4 bytes for numeric opcodes skipped"),
-        Engine("program", gen_program, repeatable("program", run_program_case), kind="E2", rule="explicit-state search through Script.evaluate: states = (stack of depth <= 3 (thorough 4) over 6 values) x (alt-stack empty or one of 6 values); transitions = 6 pushes + every implemented non-signature opcode; each transition evaluated bare (verdict incl. final truthiness), with a trailing OP_1 when consensus aborts, and with an observer suffix that succeeds iff the resulting machine state equals the reference's"),
+        Engine("opconf", gen_opconf, run_opconf, kind="E1", rule="every implemented non-signature, non-flow opcode called through OP_CODE_FUNCTIONS on every stack of depth <= 3 over 14 values and depth 4..6 (thorough ..7) over 4 values plus distinct-element stacks up to depth 9 plus every stack of depth <= 3 over 8 values with long elements (5- and 20-byte zero / negative zero / non-zero) (alt-stack depth 0..2 for the alt-stack ops): resulting stack/alt-stack or failure == reference consensus interpreter; operands > 4 bytes skipped only for the arithmetic / comparison opcodes (139..165); a PICK/ROLL index longer than 4 bytes must fail"),
+        Engine("program", gen_program, repeatable("program", run_program_case), kind="E2", rule="explicit-state search through Script.evaluate: states = (stack of depth <= 3 (thorough 4) over 6 values) x (alt-stack empty or one of 6 values), for two value sets ({'',01,02,81,80,00} and {'',01,ff00,0001,ffffff7f,20-byte blob}); transitions = 6 pushes + every implemented non-signature opcode + CLTV/CSV in a second transaction context (version 2, locktime 500, sequence fffffffe); each transition evaluated bare (verdict incl. final truthiness), with a trailing OP_1 when consensus aborts, and with an observer suffix that succeeds iff the resulting machine state equals the reference's; skipped: exactly the stacks the evaluator treats as witness programs (0 <20>, 0 <32>, 1 <32> after a push)"),
         Engine("tours", gen_tours, repeatable("tours", run_tours), kind="E2", rule="transition tours: from every start state, programs of up to 36 chained transitions that stay inside the bounded state space, each evaluated end to end with an observer of the final state"),
-        Engine("ifnest", gen_ifnest, repeatable("ifnest", run_ifnest), kind="E1", rule="every properly nested IF/NOTIF/ELSE/ENDIF program with <= 5 tokens (thorough 6), nesting <= 3, over atoms {0,1,2,push 80,DROP,DUP}, under 6 initial-stack prefixes: verdict and resulting stack == consensus"),
-        Engine("numcodec", gen_numcodec, run_numcodec, kind="E1", rule="encode_num minimal & decode inverse for every integer in [-70000,70000] and +-300 around +-2^k (k=7,8,15,16,23,24,31) and the ends of [-2^31+1, 2^31-1]; decode_num/encode_num vs reference on every byte string of length 0..2 and a structured slice of length 3 (thorough: all 2^24)"),
-        Engine("timelock", gen_timelock, repeatable("timelock", run_timelock), kind="E1", rule="CLTV and CSV: full product of 10 locktimes x 14 sequences x 6 versions x 19 operands (+ empty stack) through the op function and through Script.evaluate == BIP65/BIP112 reference"),
+        Engine("ifnest", gen_ifnest, repeatable("ifnest", run_ifnest), kind="E1", rule=f"every properly nested IF/NOTIF (ELSE){{0..3}} ENDIF program with <= {6 if q else 7} tokens, nesting <= 3, over atoms {{0,1,2,push 80,DROP,DUP}}, under 6 initial-stack prefixes: verdict and resulting stack == consensus (every ELSE toggles execution); programs where one IF has several ELSE are fingerprinted separately"),
+        Engine("numcodec", gen_numcodec, run_numcodec, kind="E1", rule="encode_num minimal & decode inverse for every integer in [-70000,70000] and +-300 around +-2^k (k=7,8,15,16,23,24,31) and the ends of [-2^31+1, 2^31-1], every 65521st integer of the whole range and the byte-boundary values +-((7f|80|81|ff|100) << 8j) +-1; decode_num/encode_num vs reference on every byte string of length 0..2, a structured slice of length 3 (thorough: all 2^24) and 4-byte strings with first and last byte in {00,01,7f,80,81,ff}, second byte exhaustive, third byte in the same 6 values (thorough: exhaustive)"),
+        Engine("timelock", gen_timelock, repeatable("timelock", run_timelock), kind="E1", rule="CLTV and CSV: full product of 10 locktimes x 18 sequences (incl. both flags set, 7fffffff, unused bits 23..30 set) x 6 versions x 23 operand values, each operand minimally encoded and zero-padded to 5 and to 6 bytes (+ empty stack), through the op function and through Script.evaluate == BIP65/BIP112 reference (6-byte operands must fail); multi-input transactions with the evaluated input first, in the middle and last"),
+        Engine("flow", gen_flow, repeatable("flow", run_flow), kind="E1", rule=f"every sequence of <= {5 if q else 6} tokens over the 15 tokens {{OP_0, OP_1, push 02, IF, NOTIF, ELSE, ENDIF, VERIFY, RETURN, TOALTSTACK, FROMALTSTACK, DEPTH, DUP, DROP, NOT}}; sequences whose conditionals are not properly nested are skipped (outside the statement); verdict through Script(list).evaluate and through Script.parse(raw).evaluate, trailing OP_1 when consensus aborts, observer of stack and alt-stack otherwise == reference; non-trivial = contains a conditional"),
+        Engine("elements", gen_elements, repeatable("elements", run_elements), kind="E1", rule="three sub-enumerations on element sizes and encodings. LONGBOOL: truth value of 21 long elements (4..520 bytes: all zero, negative zero, 80 in the middle, non-zero first / last byte) as final top element, as IF / NOTIF / nested IF condition, under VERIFY, IFDUP and after DUP .. EQUALVERIFY, under 4 initial stack / alt-stack prefixes: verdict and resulting state == reference (false iff all bytes zero, last byte may be 80). WIRE: programs entering as bytes through Script.parse(raw=...).evaluate: 8 templates (single push, EQUAL of two pushes, SIZE, push in a taken / untaken branch, SHA256, DUP HASH160 EQUALVERIFY, alt-stack round trip) x element lengths {0,1,2,5,33,75,76,77,255,256,257,519,520} x every push encoding that can carry the length (direct, PUSHDATA1, PUSHDATA2, PUSHDATA4; both pushes independently): verdict and observed state == reference; element bytes from the seed; truncated pushes are outside the statement and not generated. LIMITS: a push of {519,520,521,522,600,1000,4000} bytes in 6 executed and 6 unexecuted positions (branches not taken, nested), entering as Script(list) and as parsed bytes (PUSHDATA2, PUSHDATA4): > 520 must fail and nothing may rescue it, <= 520 must behave as the reference says; scripts of exactly {9900,9990,9999,10000,10001,10002,10100,10200} bytes with 31 operations and every push <= 520 bytes: > 10000 must fail"),
     ]
